@@ -273,11 +273,12 @@ Proof.
     destruct X as [I1 [N1 S1]]. apply (IH st1 st' id y I1 H S1). unfold matured in *. rewrite N1. assumption.
 Qed.
 
-Theorem unstaking_marker_lasts : forall cfg st o st' n id y, wf_cfg cfg -> linv cfg st ->
+Lemma unstaking_marker_lasts0 : forall cfg st o st' n id y, wf_cfg cfg -> linv cfg st ->
+  (forall s i v x e, o <> OConvert s i v x e) ->
   step cfg st o = Ok (st', n) -> s_synths st id = [y] -> y_kind y = Unstaking -> s_now st' < y_end y ->
   s_synths st' id = [y].
 Proof.
-  intros cfg st o st' n id y W I H Hs Hk Hn.
+  intros cfg st o st' n id y W I Hnc H Hs Hk Hn.
   assert (Hc : s_conn st id = None).
   { pose proof (L_marker _ _ I id) as M. unfold marker in M. rewrite Hs, Hk in M. tauto. }
   destruct o; cbn [step] in H; unfold bind in H.
@@ -370,6 +371,7 @@ Proof.
     destruct (force_unlock cfg st sender id0) as [s|] eqn:E; [|discriminate]. injection H as <- _.
     apply (force_unlock_linv cfg) in E; [|assumption].
     destruct E as [_ [_ [_ [_ [_ [_ [_ [_ [_ [_ [_ [_ [S _]]]]]]]]]]]]]. rewrite S. assumption.
+  - (* OConvert *) exfalso. eapply Hnc. reflexivity.
   - (* OWithdraw *)
     unfold unlock_matured_lock in H. destruct (s_locks st id0) as [l|]; [|discriminate].
     destruct (l_end l =? 0); [discriminate|]. destruct (s_now st <? l_end l); [discriminate|]. injection H as <- _. assumption.
@@ -387,4 +389,48 @@ Proof.
     apply set_mults_frame in E1. destruct E1 as [E1 _]. apply refresh_list_frame in E2. destruct E2 as [E2 _].
     apply lproj_fields in E1. apply lproj_fields in E2.
     destruct E1 as [_ [_ [_ [F4 _]]]]. destruct E2 as [_ [_ [_ [G4 _]]]]. rewrite G4, F4. assumption.
+Qed.
+
+(* ... with one exception by design: MsgUnbondConvertAndStake takes the lock itself out of lockup (pool exit, swap to OSMO)
+   and stakes the proceeds as the owner's own delegation; the lock and its marker disappear together *)
+Theorem unstaking_marker_lasts : forall cfg st o st' n id y, wf_cfg cfg -> linv cfg st ->
+  step cfg st o = Ok (st', n) -> s_synths st id = [y] -> y_kind y = Unstaking -> s_now st' < y_end y ->
+  s_synths st' id = [y] \/
+  (exists sender v x e, o = OConvert sender id v x e /\ s_locks st' id = None /\ s_synths st' id = []).
+Proof.
+  intros cfg st o st' n id y W I H Hs Hk Hn.
+  destruct o; try (left; eapply unstaking_marker_lasts0; try eassumption; intros; discriminate).
+  cbn [step] in H. unfold bind in H.
+  destruct (convert cfg st sender id0 v x env_ok) as [s|] eqn:E; [|discriminate]. injection H as <- _.
+  apply (convert_linv cfg) in E; try assumption. destruct E as [_ [K [S [_ O]]]].
+  destruct (Z.eq_dec id0 id) as [->|N].
+  - right. exists sender, v, x, env_ok. auto.
+  - left. destruct (O id) as [-> _]; [congruence|assumption].
+Qed.
+
+(* the proceeds of a conversion are staked: the validator's tokens grow by the reported amount *)
+Lemma convert_stakes : forall cfg st sender id v x e st' n, wf_cfg cfg -> linv cfg st ->
+  step cfg st (OConvert sender id v x e) = Ok (st', n) ->
+  n = x /\ 0 <= x /\ exists val val', s_vals st' v = Some val' /\
+    (s_conn st id = None -> s_vals st v = Some val /\ v_tokens val' = v_tokens val + x).
+Proof.
+  intros cfg st sender id v x e st' n W I H. cbn [step] in H. unfold bind in H.
+  destruct (convert cfg st sender id v x e) as [s|] eqn:E; [|discriminate]. injection H as <- <-.
+  split; [reflexivity|]. apply (convert_trace cfg) in E; try assumption.
+  destruct E as [st1 [st2 [st3 [l3 [J1 [I1 [J2 [I2 [J3 [I3 [Hl3 [Ne3 [Hx _]]]]]]]]]]]]].
+  unfold external_delegate in Hx. ssimpl.
+  destruct (s_vals st3 v) as [val3|] eqn:Hv3; [|discriminate].
+  destruct (Z.ltb_spec x 0); [discriminate|]. destruct (_ && _); [discriminate|]. injection Hx as <-.
+  split; [assumption|]. exists val3. eexists. ssimpl. rewrite upd1_same. split; [reflexivity|].
+  intros Hc. cbn [v_tokens]. split; [|reflexivity].
+  (* no undelegation happened: the validators are untouched up to st3 *)
+  assert (V1 : s_vals st1 = s_vals st).
+  { destruct J1 as [->|E1]; [reflexivity|]. unfold undelegate_common in E1. destruct (s_locks st id); [|discriminate].
+    destruct (negb _); [discriminate|]. rewrite Hc in E1. discriminate. }
+  assert (V2 : s_vals st2 = s_vals st1).
+  { destruct J2 as [->|[d0 [v0 E2]]]; [reflexivity|]. apply delete_synth_ok in E2. destruct E2 as [_ [l [_ ->]]]. reflexivity. }
+  assert (V3 : s_vals st3 = s_vals st2).
+  { destruct J3 as [->|[n3 E3]]; [reflexivity|]. apply (begin_unlock_linv cfg) in E3; [|assumption|discriminate].
+    destruct E3 as [l0 [_ [_ [_ [_ [_ [_ [_ [_ [_ [_ [V _]]]]]]]]]]]]. assumption. }
+  rewrite <- V1, <- V2, <- V3. assumption.
 Qed.
